@@ -98,9 +98,56 @@ func (s *c38State) posOf(call ssa.CallInstruction) (pos []int, follow map[int]bo
 		for i := range s.follow[g] {
 			follow[i] = true
 		}
-		return ps, follow, false, ci.String()
+		// role label, not the (unexported) helper's name: the os/files calls it reaches
+		what := ci.String()
+		if !token.IsExported(ci.Name) {
+			what = "helper[" + strings.Join(s.reachNames(g, map[*ssa.Function]bool{}), ",") + "]"
+		}
+		return ps, follow, false, what
 	}
 	return nil, follow, false, ""
+}
+
+// reachNames: the os / exported calls with a path position that g reaches
+// (through helpers of the analysed packages), sorted: a stable description of
+// what a helper does to the path.
+func (s *c38State) reachNames(g *ssa.Function, seen map[*ssa.Function]bool) []string {
+	if seen[g] {
+		return nil
+	}
+	seen[g] = true
+	set := map[string]bool{}
+	for _, call := range an.AllCalls(g) {
+		ci := an.Callee(call)
+		if ci.Pkg == "os" && ci.Recv == "" {
+			if _, ok := c38OSSinks[ci.Name]; ok {
+				set["os."+ci.Name] = true
+			}
+			continue
+		}
+		if h := ci.Static; h != nil && s.inU[h] && len(s.sink[h]) > 0 {
+			if token.IsExported(ci.Name) {
+				set[ci.String()] = true
+			} else {
+				for _, n := range s.reachNames(h, seen) {
+					set[n] = true
+				}
+			}
+		}
+	}
+	an.Instrs(g, func(in ssa.Instruction) {
+		if st, ok := in.(*ssa.Store); ok {
+			if fl, _ := an.FieldOf(st.Addr); fl != nil && s.pathFlds[fl] {
+				set["store-path-field"] = true
+			}
+		}
+	})
+	var out []string
+	for n := range set {
+		out = append(out, n)
+	}
+	sort.Strings(out)
+	return out
 }
 
 // uses lists the mutating path uses of one function.
@@ -118,7 +165,7 @@ func (s *c38State) uses(f *ssa.Function) []c38Use {
 	an.Instrs(f, func(in ssa.Instruction) {
 		if st, ok := in.(*ssa.Store); ok {
 			if fl, _ := an.FieldOf(st.Addr); fl != nil && s.pathFlds[fl] && an.IsString(st.Val.Type()) {
-				out = append(out, c38Use{f, st, st.Val, false, false, "store to " + fl.Name()})
+				out = append(out, c38Use{f, st, st.Val, false, false, "store-to-path-field"})
 			}
 		}
 	})
@@ -240,7 +287,8 @@ func runC38(c *an.Ctx) {
 							sx, isSx := ss.Val.(*ssa.Extract)
 							if isSx && sx.Tuple == ex.Tuple && sx.Index == 0 {
 								n++
-							} else {
+							} else if _, isConst := ss.Val.(*ssa.Const); !isConst {
+								// (`return "", err` with the sanitizer's error is the plain error path)
 								ok = false
 							}
 						}
@@ -745,6 +793,67 @@ func c38LstatIsDirGuard(f *ssa.Function, path ssa.Value, from, site ssa.Instruct
 			continue
 		}
 		if an.OnNilEdgeOf(f, ls, site) && an.GuardedBy(f, ls, site, c38IsDirEdges(f, ls)) {
+			return true
+		}
+		// the same two tests folded into a boolean flag:
+		//   ok := err == nil && fi.IsDir(); ...; if ok { site }
+		// = a bool phi whose inputs are `false` or the IsDir()/not-symlink test of
+		// this Lstat's FileInfo computed where its error was nil
+		if !an.Dominates(ls, site) {
+			continue
+		}
+		nilEdges := an.NilEdges(f, an.ErrResult(ls), true)
+		fis := an.Result(ls, 0)
+		isDirTest := func(v ssa.Value) bool {
+			call, ok := v.(*ssa.Call)
+			if !ok || an.Callee(call).Name != "IsDir" {
+				return false
+			}
+			r := an.Recv(call)
+			if r == nil {
+				return false
+			}
+			for _, l := range an.Deps(r, &an.DepOpts{Stop: func(x ssa.Value) bool {
+				for _, fi := range fis {
+					if x == fi {
+						return true
+					}
+				}
+				return false
+			}}) {
+				for _, fi := range fis {
+					if l == fi {
+						return true
+					}
+				}
+			}
+			return false
+		}
+		var flags []ssa.Value
+		an.Instrs(f, func(in ssa.Instruction) {
+			phi, ok := in.(*ssa.Phi)
+			if !ok {
+				return
+			}
+			if b, isB := phi.Type().Underlying().(*types.Basic); !isB || b.Kind() != types.Bool {
+				return
+			}
+			n := 0
+			for i, e := range phi.Edges {
+				if k, isK := an.ConstOf(e); isK && k.String() == "false" {
+					continue
+				}
+				pred := phi.Block().Preds[i]
+				if !isDirTest(e) || len(nilEdges) == 0 || !an.GuardedBy(f, ls, pred.Instrs[len(pred.Instrs)-1], nilEdges) {
+					return
+				}
+				n++
+			}
+			if n > 0 {
+				flags = append(flags, phi)
+			}
+		})
+		if len(flags) > 0 && an.GuardedBy(f, ls, site, an.BoolEdges(f, flags, true)) {
 			return true
 		}
 	}
